@@ -9088,7 +9088,10 @@ func (p *parser) visitStmts(stmts []js_ast.Stmt, kind stmtsKind) []js_ast.Stmt {
 			// semantics because we need two identifiers to do that and direct "eval"
 			// means neither identifier can be renamed to something else. So in that
 			// case we give up and do not preserve the semantics of the original code.
-			if p.currentScope.ContainsDirectEval {
+			//
+			// The same goes for a function that is referenced inside a "with"
+			// statement, which also means it cannot be renamed.
+			if p.currentScope.ContainsDirectEval || p.symbols[s.Fn.Name.Ref.InnerIndex].Flags.Has(ast.MustNotBeRenamed) {
 				if hoistedRef, ok := p.hoistedRefForSloppyModeBlockFn[s.Fn.Name.Ref]; ok {
 					// Merge the two identifiers back into a single one
 					p.symbols[hoistedRef.InnerIndex].Link = s.Fn.Name.Ref
